@@ -41,7 +41,10 @@ def check_pipeline(spec, halt, parallel=False):
             return f
         stages.append(CascadeStage(name=f"s{i}", processor=mk_pr(), amplification=amp, checkpoint=mk_cp(),
                                    on_error=mk_oe(), required=req))
-    c = Cascade("b", halt_on_failure=halt, silent=True, max_amplification=100.0)
+    # the declared mode is a label: run() must behave the same whatever mode the cascade was constructed with
+    from operon_ai.topology.cascade import CascadeMode
+    modes = list(CascadeMode)
+    c = Cascade("b", mode=modes[(len(spec) + sum(1 for x in spec if x[3])) % len(modes)], halt_on_failure=halt, silent=True, max_amplification=100.0)
     for s in stages:
         c.add_stage(s)
     with contextlib.redirect_stdout(io.StringIO()):
